@@ -56,3 +56,8 @@ impl Shared {
         Rc::clone(&self.cell)
     }
 }
+
+// an escape hatch passed as a function value: never the callee of a call in this body
+pub fn leak_forget_each(v: Vec<Vec<u8>>) {
+    v.into_iter().for_each(std::mem::forget);
+}
